@@ -22,7 +22,12 @@ pub struct ProbeResult {
 }
 
 pub fn run_probe(args: &[String], stdin: Option<&[u8]>, timeout: Duration, env: &[(&str, &str)]) -> ProbeResult {
-    let exe = std::env::var("HV_PROBE_EXE").ok().map(std::path::PathBuf::from).unwrap_or_else(|| std::env::current_exe().expect("current_exe"));
+    run_probe_with(None, args, stdin, timeout, env)
+}
+
+/// `exe`: another build of the harness (e.g. the AddressSanitizer build); default = this executable
+pub fn run_probe_with(exe: Option<&str>, args: &[String], stdin: Option<&[u8]>, timeout: Duration, env: &[(&str, &str)]) -> ProbeResult {
+    let exe = exe.map(std::path::PathBuf::from).unwrap_or_else(|| std::env::current_exe().expect("current_exe"));
     let start = Instant::now();
     let mut cmd = Command::new(exe);
     cmd.arg("probe").args(args).stdin(if stdin.is_some() { Stdio::piped() } else { Stdio::null() }).stdout(Stdio::piped()).stderr(Stdio::piped());
